@@ -16,7 +16,7 @@ PROPS = {
     "C15": {
         "module": "Cuke.Props.C15",
         "namespace": "Cuke.C15",
-        "families": [("tag.eval", 3000, 300000), ("filter.feature", 2000, 150000)],
+        "families": [("tag.eval", 10000, 300000), ("filter.feature", 6000, 150000)],
         "modelled_not_verified": [
             "regex::Regex::is_match (oracle column per scenario)",
             "gherkin tag-expression parser (a third of the expressions go through it)",
@@ -25,7 +25,7 @@ PROPS = {
     "C17": {
         "module": "Cuke.Props.C17",
         "namespace": "Cuke.C17",
-        "families": [("match.find", 6000, 400000)],
+        "families": [("match.find", 12000, 400000)],
         "modelled_not_verified": [
             "regex crate: captures_read / capture_names are oracle columns (whole match, per-group participation and text, names)",
             "Ord of (HashableRegex, Option<Location>) is used by the harness to number the keys (model sorts by that number)",
@@ -35,7 +35,7 @@ PROPS = {
     "C18": {
         "module": "Cuke.Props.C18",
         "namespace": "Cuke.C18",
-        "families": [("retry.resolve", 4000, 300000)],
+        "families": [("retry.resolve", 10000, 300000)],
         "modelled_not_verified": [
             "humantime::parse_duration (oracle table for every parenthesised substring of every tag)",
         ],
@@ -43,7 +43,7 @@ PROPS = {
     "C13": {
         "module": "Cuke.Props.C13",
         "namespace": "Cuke.C13",
-        "families": [("pipe.comb", 3000, 150000)],
+        "families": [("pipe.comb", 6000, 150000)],
         "modelled_not_verified": [
             "custom predicates/filters are drawn from a small closed family (always/never/parity/...) on both sides",
             "recording leaf writers and the dynamic boxing adapter (DynW) are harness code",
@@ -52,7 +52,7 @@ PROPS = {
     "C12": {
         "module": "Cuke.Props.C12",
         "namespace": "Cuke.C12",
-        "families": [("pipe.summ", 3000, 150000)],
+        "families": [("pipe.summ", 5000, 150000)],
         "modelled_not_verified": [
             "the summary TEXT (Styles::summary) is parsed back by the harness into its numbers; formatting is not modelled",
             "usize arithmetic as Nat (skipped -= 1 never underflows on canonical streams)",
@@ -61,7 +61,7 @@ PROPS = {
     "C01": {
         "module": "Cuke.Props.C01",
         "namespace": "Cuke.C01",
-        "families": [("pipe.verdict", 3000, 150000), ("sched.run", 600, 40000)],
+        "families": [("pipe.verdict", 5000, 150000), ("sched.run", 1000, 40000)],
         "segments": {"sched.run": [14]},
         "segment_names": ['c01'],
         "modelled_not_verified": [
@@ -72,7 +72,7 @@ PROPS = {
     "C02": {
         "module": "Cuke.Props.C02",
         "namespace": "Cuke.C02",
-        "families": [("attempt.run", 400, 30000), ("sched.run", 600, 40000), ("sched.lazy", 400, 30000)],
+        "families": [("attempt.run", 800, 30000), ("sched.run", 1000, 40000), ("sched.lazy", 600, 30000)],
         "segments": {"attempt.run": [0], "sched.run": [13]},
         "segment_names": ['c02'],
         "skip_prefixes": ["mon.c09", "mon.c10"],
@@ -86,7 +86,7 @@ PROPS = {
     "C09": {
         "module": "Cuke.Props.C09",
         "namespace": "Cuke.C09",
-        "families": [("attempt.run", 400, 30000)],
+        "families": [("attempt.run", 800, 30000)],
         "segments": {"attempt.run": [1]},
         "skip_prefixes": ["mon.c10"],
         "modelled_not_verified": [
@@ -97,7 +97,7 @@ PROPS = {
     "C10": {
         "module": "Cuke.Props.C10",
         "namespace": "Cuke.C10",
-        "families": [("attempt.run", 400, 30000)],
+        "families": [("attempt.run", 800, 30000)],
         "segments": {"attempt.run": [0, 2]},
         "skip_prefixes": ["mon.c09"],
         "modelled_not_verified": [
@@ -108,7 +108,7 @@ PROPS = {
     "C03": {
         "module": "Cuke.Props.C03",
         "namespace": "Cuke.C03",
-        "families": [("sched.run", 600, 40000), ("sched.lazy", 400, 30000)],
+        "families": [("sched.run", 1000, 40000), ("sched.lazy", 600, 30000)],
         "segments": {"sched.run": [3, 5, 2, 4, 7]},
         "segment_names": ['B', 'I', 'R', 'FF', 'c03'],
         "modelled_not_verified": ["futures crate: FuturesUnordered, mpsc channels, join/select (the plumbing is checked by comparing sent and received event sequences)", "the async executor (hand-polled by the harness) and Instant / thread::sleep (clock readings are environment inputs of the model)", "HashMap iteration order at finish_all (model: any order inside the rule group and the feature group)"],
@@ -116,7 +116,7 @@ PROPS = {
     "C04": {
         "module": "Cuke.Props.C04",
         "namespace": "Cuke.C04",
-        "families": [("sched.run", 600, 40000), ("sched.lazy", 400, 30000)],
+        "families": [("sched.run", 1000, 40000), ("sched.lazy", 600, 30000)],
         "segments": {"sched.run": [5, 0, 2, 8]},
         "segment_names": ['I', 'Q', 'R', 'c04'],
         "modelled_not_verified": ["futures crate: FuturesUnordered, mpsc channels, join/select (the plumbing is checked by comparing sent and received event sequences)", "the async executor (hand-polled by the harness) and Instant / thread::sleep (clock readings are environment inputs of the model)", "HashMap iteration order at finish_all (model: any order inside the rule group and the feature group)", "fairness of the environment (every gate is eventually opened, sleeps end, the parser ends) is assumed for termination"],
@@ -124,7 +124,7 @@ PROPS = {
     "C05": {
         "module": "Cuke.Props.C05",
         "namespace": "Cuke.C05",
-        "families": [("sched.run", 600, 40000), ("sched.lazy", 400, 30000), ("attempt.run", 400, 30000)],
+        "families": [("sched.run", 1000, 40000), ("sched.lazy", 600, 30000), ("attempt.run", 800, 30000)],
         "segments": {"sched.run": [2, 0, 9], "attempt.run": [2]},
         "skip_prefixes": ["mon.c09", "mon.c10"],
         "segment_names": ['R', 'Q', 'c05'],
@@ -133,7 +133,7 @@ PROPS = {
     "C06": {
         "module": "Cuke.Props.C06",
         "namespace": "Cuke.C06",
-        "families": [("sched.run", 600, 40000), ("sched.lazy", 400, 30000)],
+        "families": [("sched.run", 1000, 40000), ("sched.lazy", 600, 30000)],
         "segments": {"sched.run": [1, 0, 10]},
         "segment_names": ['K', 'Q', 'c06'],
         "modelled_not_verified": ["futures crate: FuturesUnordered, mpsc channels, join/select (the plumbing is checked by comparing sent and received event sequences)", "the async executor (hand-polled by the harness) and Instant / thread::sleep (clock readings are environment inputs of the model)", "HashMap iteration order at finish_all (model: any order inside the rule group and the feature group)"],
@@ -141,7 +141,7 @@ PROPS = {
     "C07": {
         "module": "Cuke.Props.C07",
         "namespace": "Cuke.C07",
-        "families": [("sched.run", 600, 40000), ("sched.lazy", 400, 30000)],
+        "families": [("sched.run", 1000, 40000), ("sched.lazy", 600, 30000)],
         "segments": {"sched.run": [0, 11]},
         "segment_names": ['Q', 'c07'],
         "modelled_not_verified": ["futures crate: FuturesUnordered, mpsc channels, join/select (the plumbing is checked by comparing sent and received event sequences)", "the async executor (hand-polled by the harness) and Instant / thread::sleep (clock readings are environment inputs of the model)", "HashMap iteration order at finish_all (model: any order inside the rule group and the feature group)"],
@@ -149,7 +149,7 @@ PROPS = {
     "C08": {
         "module": "Cuke.Props.C08",
         "namespace": "Cuke.C08",
-        "families": [("sched.run", 600, 40000), ("sched.lazy", 400, 30000)],
+        "families": [("sched.run", 1000, 40000), ("sched.lazy", 600, 30000)],
         "segments": {"sched.run": [4, 3, 1, 12]},
         "segment_names": ['FF', 'B', 'K', 'c08'],
         "modelled_not_verified": ["futures crate: FuturesUnordered, mpsc channels, join/select (the plumbing is checked by comparing sent and received event sequences)", "the async executor (hand-polled by the harness) and Instant / thread::sleep (clock readings are environment inputs of the model)", "HashMap iteration order at finish_all (model: any order inside the rule group and the feature group)"],
@@ -157,7 +157,7 @@ PROPS = {
     "C11": {
         "module": "Cuke.Props.C11",
         "namespace": "Cuke.C11",
-        "families": [("norm.run", 2500, 150000)],
+        "families": [("norm.run", 5000, 150000)],
         "modelled_not_verified": [
             "linked-hash-map crate: modelled as association lists (insert on an existing key replaces and moves to the back; entry().or_insert keeps the position)",
             "Metadata (timestamps) dropped; panics (`no Feature`, `no Rule`, unreachable!) are the model's `none`",
@@ -166,7 +166,7 @@ PROPS = {
     "C16": {
         "module": "Cuke.Props.C16",
         "namespace": "Cuke.C16",
-        "families": [("outline.expand", 3000, 200000)],
+        "families": [("outline.expand", 8000, 200000)],
         "modelled_not_verified": [
             "gherkin's own parsing (the parsed AST is the request)",
             "the regex crate's implementation of `<([^>\\s]+)>` with replace_all: the model's scanner (leftmost, non-overlapping, Unicode White_Space) is tied to it by the differential",
@@ -184,7 +184,7 @@ PROPS = {
     "C20": {
         "module": "Cuke.Props.C20",
         "namespace": "Cuke.C20",
-        "families": [("trace.run", 120, 3000)],
+        "families": [("trace.run", 200, 3000)],
         "modelled_not_verified": [
             "tracing / tracing-subscriber (one write per event, on_close on span drop) and the global dispatcher: one real run per child process",
             "the protocol model is NOT replayed against probes inside src/tracing.rs; the tie is end-to-end (monitor on the event stream of real runs)",
@@ -193,7 +193,7 @@ PROPS = {
     "C14": {
         "module": "Cuke.Props.C14",
         "namespace": "Cuke.C14",
-        "families": [("report.run", 1500, 80000)],
+        "families": [("report.run", 2500, 80000)],
         "modelled_not_verified": [
             "serde_json / junit-report / console: byte-level serialisation; well-formedness and escaping are tested by parsing the real output back (names with quotes, <&>, ]]>, backslashes, non-ASCII), not proved",
             "the plain terminal writer (writer::Basic) is modelled in non-terminal mode only (Coloring::Never): the branch that clears and re-draws lines is not modelled; docstrings, tables and the World dump (verbosity > 0) are not printed by the harness' features",
